@@ -49,6 +49,8 @@ type Func struct {
 	Binds []Value
 	B     *ssa.Builtin
 	Noop  bool // engine-made function value that does nothing (e.g. context.CancelFunc)
+	// CancelCh != 0: engine-made context.CancelFunc that closes that done-channel object
+	CancelCh int
 }
 
 type MapV struct{ Obj int }
